@@ -75,8 +75,8 @@ func (c *VCheck) listAll(ds *Dataset, count int) ([]*Entity, int, error) {
 			return out, pages, fmt.Errorf("page of %d entities for count %d", len(res.Entities), count)
 		}
 		from = res.ContinuationToken
-		if pages > 1000 {
-			return out, pages, fmt.Errorf("listing does not terminate")
+		if pages > 40 {
+			return out, pages, fmt.Errorf("listing does not terminate (more than 40 pages for at most 4 entities)")
 		}
 	}
 }
@@ -321,7 +321,7 @@ func (c *VCheck) CheckFeed() {
 						break
 					}
 					since = r.NextToken
-					if pages > 1000 {
+					if pages > len(want)+10 {
 						c.fail("C02:page-loop:"+md.Name, "paging does not terminate", nil)
 						bad = true
 						break
